@@ -555,6 +555,19 @@ class Arr:
         if name in ('lt', 'gt', 'le', 'ge') and (self.dt == 'complex' or (isinstance(o, Arr) and o.dt == 'complex') or isinstance(o, complex)):
             CTX.event('complex-order', array=self, other=o, detail=f'an ordering comparison ({name}) of complex numbers: NumPy orders them by real part first (lexicographically), it does not '
                       f'compare moduli')
+        if name in ('lt', 'gt', 'le', 'ge') and isinstance(o, (int, float)) and not isinstance(o, bool) and 0 < abs(o) < 1e-6:
+            # a quantity derived from computed eigenvalues compared with a small ABSOLUTE constant (no division on the way: not relative to their scale)
+            x_, hops, rel = self, 0, False
+            while isinstance(x_, Arr) and hops < 6 and x_.origin not in ('eig.w', 'eigh.w', 'eigs.w'):
+                ex_ = x_.tags.get('expr')
+                if ex_ and ex_[0] == 'truediv':
+                    rel = True
+                    break
+                nxt = [p_ for p_ in (ex_[1] if ex_ else (x_.parents or ())) if isinstance(p_, Arr)]
+                x_, hops = (nxt[0] if nxt else None), hops + 1
+            if isinstance(x_, Arr) and not rel and x_.origin in ('eig.w', 'eigh.w', 'eigs.w'):
+                CTX.event('abs-tolerance-eig', array=self, const=o, eig=x_, detail=f'a quantity computed from the eigenvalues of a micro problem is compared with the absolute constant {o!r}: '
+                          f'the test is not invariant under scaling of the operator (rounding-level parts of eigenvalues of size 1e5 exceed 1e-12)')
         if name in ('lt', 'gt', 'le', 'ge', 'eq', 'ne'):
             dt = 'bool'
         r = Arr(shape, legs, dt, None, tags, name)
